@@ -152,13 +152,19 @@ def run(rep, tier):
         tgt = f_.j["params"][1]["name"]
         g_ = CFG(f_)
         rep.analysed(f_)
+        # the target and local references bound to it (auto& mat = matrix.derived();)
+        names_ = {tgt}
+        for d_ in f_.decls.values():
+            if "&" in (d_.get("type") or "") and d_.get("init") is not None and nows(show(d_["init"])).replace(".derived()", "") == tgt:
+                names_.add(d_.get("name"))
+
         def on_target(n):
             o = n.get("obj")
             while isinstance(o, dict) and o.get("k") in ("mcall", "paren", "cast", "implicit") and "derived" in show(o):
                 o = o.get("obj") or (o.get("args") or [None])[0] or o.get("sub")
-            return nows(show(n.get("obj") or {})).replace(".derived()", "") == tgt
+            return nows(show(n.get("obj") or {})).replace(".derived()", "") in names_
         resets = [n for n in f_.walk() if n.get("k") == "mcall" and re.search(r"::(resize|clear|assign|operator=)$", n.get("callee") or "") and on_target(n)]
-        resets += [n for n in f_.walk() if n.get("k") in ("opcall", "binop") and n.get("op") == "=" and nows(show((n.get("args") or [n.get("lhs")])[0] or {})) == tgt]
+        resets += [n for n in f_.walk() if n.get("k") in ("opcall", "binop") and n.get("op") == "=" and nows(show((n.get("args") or [n.get("lhs")])[0] or {})) in names_]
         resets = [n for n in resets if n["id"] in g_.where]
         exits = g_.exit_blocks(normal=True)
         reach = g_.reachable_blocks()
